@@ -56,7 +56,8 @@ struct ItemSpec {
     forpat: bool,
     fmt_nonempty: bool,
     add_ufcs: bool,
-    keep_trait: bool,                    // traitfn: emit inside `impl Trait for Type` (not as inherent method)
+    keep_trait: bool,
+    optional_item: bool,                 // `//@item?`: skipped when the selector matches nothing                    // traitfn: emit inside `impl Trait for Type` (not as inherent method)
     param_types: Vec<(String, String)>,   // R12: parameter NAME gets the type TEXT (impl Iterator -> SeqIter)
     viter: bool,                         // apply R5 (iterator entry) to this item
     attrs: Vec<String>,                  // extra attributes (e.g. verifier::rlimit)
@@ -262,7 +263,7 @@ fn parse_template(text: &str) -> Vec<Result<String, ItemSpec>> {
                 None => (rest, ""),
             };
             match cmd {
-                "item" => {
+                "item" | "item?" => {
                     if cur.is_some() {
                         die(&format!("template line {}: nested //@item", ln + 1));
                     }
@@ -280,6 +281,7 @@ fn parse_template(text: &str) -> Vec<Result<String, ItemSpec>> {
                     spec.file = file.to_string();
                     spec.selector = selector.trim().to_string();
                     spec.mode = mode.to_string();
+                    spec.optional_item = cmd == "item?";
                     if !["verify", "trusted", "plain"].contains(&spec.mode.as_str()) {
                         die(&format!("template line {}: unknown mode {}", ln + 1, spec.mode));
                     }
@@ -694,10 +696,15 @@ fn emit_fragment(em: &mut Emit, spec: &ItemSpec, src: &str, parsed: &syn::File, 
         for (a, b) in &holes {
             if *a < pos { die("skeleton: overlapping holes"); }
             t.push_str(&src[pos..*a]);
-            t.push_str(" <HOLE> ");
+            t.push_str(" __VX_HOLE__ ");
             pos = *b;
         }
         t.push_str(&src[pos..fe]);
+        // hash the token stream, not the text: comments and layout are not part of the skeleton
+        let t = match t.parse::<proc_macro2::TokenStream>() {
+            Ok(ts) => ts.to_string().replace("__VX_HOLE__", "<HOLE>"),
+            Err(_) => norm(&t).replace("__VX_HOLE__", "<HOLE>"),
+        };
         let h = fnv64(&norm(&t));
         let want = spec.ret.clone().unwrap_or_default();
         if h != want {
@@ -763,6 +770,10 @@ fn emit_item(
     rewrite::DROP_DERIVES.with(|d| *d.borrow_mut() = spec.drop_derive.clone());
     rewrite::VITER_SKIP.with(|d| *d.borrow_mut() = spec.viter_skip.clone());
     let found = find(parsed, &spec.selector);
+    if found.is_empty() && spec.optional_item {
+        em.push(&format!("// optional item {} {} not present in the source: skipped\n", spec.file, spec.selector), json!({"kind": "marker"}));
+        return;
+    }
     if found.len() != 1 {
         die(&format!(
             "lost anchor: selector `{}` matches {} items in {:?} (template line {})",
